@@ -29,6 +29,10 @@ CHECKS = {
    text="TLC exhaustively checks IqRegistry.tla (two registry levels: transporting protocol layer and interface layer; requests of every kind class with/without application callbacks, library-issued keep-alive ping, retry of the same id from inside the error callback; result / error / replayed / unknown-id replies in any order; server pings with colliding ids) against Correlation, NoLeak, PingsAnswered, StillWaiting; each of the three as-read deviation switches must violate an invariant (self-test). The graph's transitions are replayed on the real protocol-layer group + YowInterfaceLayer with request ids from the library's own generator and concrete request/reply stanzas rotated over the 20 iq kinds of the catalogue; callbacks, unclaimed entities at the top and pongs are compared after every step.",
    note="Quick replays half of the transition cover (the other half with the next seed) plus 1500 random walks of the larger instance; library-internal key fetch / upload / group-info requests are covered by the end-to-end checks, not here.",
    technique="TLA+ spec + TLC exhaustive model checking; behaviour replay (transition cover + random walks) into the assembled layers"),
+ "C19": dict(level="model_checking", design="4/C19",
+   text="TLC exhaustively checks ConfigStore.tla (profile directory, config.json / config.yo / temporary file, a save decomposed into mkdir/open/write/close/rename/remove-stale, crash between any two operations, load by profile name) for all histories of up to 3 saves in both formats against SaveThenLoad, NeverFails, CrashSafe, NeverLost; each as-read switch (no mkdir, truncate in place, one file name for both formats) must violate an invariant. The graph's save histories are replayed on the real ConfigManager/StorageTools with generated configurations (random field subsets, unicode / binary values, both formats, fresh and existing profiles); before EVERY file-system operation of every save the whole config root is copied (buffers flushed and unflushed) and must load as the previous or the new configuration; plus load by path with and without extension.",
+   note="Trusts TLC, the file-operation proxies installed in yowsup.common.tools / yowsup.config.manager (open, os.*, tempfile.*) and the copy-at-boundary crash model (process death, not power loss).",
+   technique="TLA+ spec + TLC exhaustive model checking; behaviour replay with crash injection at every file-system operation"),
 }
 NA_REASON = "check not built yet in this session (planned: see DESIGN.md section 4)"
 
